@@ -11,6 +11,7 @@ import (
 	"sort"
 	"strings"
 	"sync"
+	"syscall"
 	"time"
 )
 
@@ -223,6 +224,17 @@ func cmdCheck(args []string) int {
 	tGen := time.Since(t0).Seconds()
 	work := filepath.Join(verifDir(), "work", id)
 	if st, err := os.Stat("/dev/shm"); err == nil && st.IsDir() {
+		// remove work directories left behind by runs that were killed
+		if ds, err := filepath.Glob("/dev/shm/govc-*-*"); err == nil {
+			for _, d := range ds {
+				var pid int
+				if _, err := fmt.Sscanf(filepath.Base(d), "govc-%d-", &pid); err == nil && pid > 0 {
+					if err := syscall.Kill(pid, 0); err != nil {
+						os.RemoveAll(d)
+					}
+				}
+			}
+		}
 		work = filepath.Join("/dev/shm", fmt.Sprintf("govc-%d-%s", os.Getpid(), id))
 		defer os.RemoveAll(work)
 	}
